@@ -166,6 +166,12 @@ def run_case(case):
             tg += "|negated-labelled-node"
         if "choice(" in str(e) or "body_" in str(e):
             tg += "|ad-internal-node-as-parent"
+        try:
+            missing = str(e).strip("'\"")
+            if any(t == "conj" and str(getattr(n, "name", None)) == missing for _i, n, t in gp):
+                tg += "|labelled-conjunction-node"
+        except Exception:  # noqa
+            pass
         return viol("bn:missing-variable-or-row%s" % tg, "KeyError %s while multiplying out the "
                     "network (a factor refers to a variable/row that does not exist)\n%s" % (e, text), feat=feats, sample=text)
     except Exception as e:  # noqa
@@ -199,7 +205,10 @@ def run_case(case):
     for q, p in R.probs.items():
         if q not in marg:
             if float(p) > 1e-9 and float(p) < 1 - 1e-9:
-                return viol("bn:query-variable-missing" + tag, "query %s (probability %.10g) is not a variable of the network %s\n%s" % (
+                tq = tag
+                if ("\\+" + q) in marg:
+                    tq += "|negated-labelled-node"     # the query atom is the negation of a node: exported under the name \+atom
+                return viol("bn:query-variable-missing" + tq, "query %s (probability %.10g) is not a variable of the network %s\n%s" % (
                     q, float(p), sorted(marg), text), feat=feats, sample=text)
             continue
         if abs(marg[q] - float(p)) > 1e-7:
